@@ -104,8 +104,11 @@ type MapIter struct {
 
 type Chan struct {
 	buf    []Value
+	bufVC  []VC // clock of the sender per buffered value: a receive acquires it
 	cap    int
 	closed bool
+	closeVC     VC
+	waitingRecv int // goroutines parked in a receive (or a select with a receive case) on this channel
 }
 
 // Lazy is a not-yet-materialised havoced value (DESIGN.md 2.2, lazy initialisation).
